@@ -116,10 +116,34 @@ class Poly:
         return None
 
     # -- arithmetic
+    def inf_sign(self):
+        """+1 / -1 if the polynomial contains the +-inf atom linearly (IEEE: finite + inf = inf), 0 if none,
+        None if the infinite part is not a plain signed atom"""
+        s = 0
+        for m, c in self.t.items():
+            for a, pw in m:
+                if a in (PINF_ATOM, NINF_ATOM):
+                    if len(m) != 1 or pw != 1:
+                        return None
+                    sg = (1 if c > 0 else -1) * (1 if a == PINF_ATOM else -1)
+                    if s and s != sg:
+                        return None
+                    s = sg
+        return s
+
     def __add__(self, o):
         o = as_poly(o)
         if self.is_nan() or o.is_nan():
             return NAN
+        sa, sb = self.inf_sign(), o.inf_sign()
+        if sa or sb:
+            # IEEE arithmetic with infinities: inf - inf = NaN, finite + inf = inf
+            if sa is None or sb is None:
+                pass
+            elif sa and sb and sa != sb:
+                return NAN
+            else:
+                return Poly.atom(PINF_ATOM if (sa or sb) > 0 else NINF_ATOM)
         t = dict(self.t)
         for m, c in o.t.items():
             v = t.get(m, 0) + c
@@ -399,6 +423,9 @@ def cmp_term(op, a, b):
         d, o = a - b, '!='
     else:
         raise ValueError(op)
+    if d.is_nan():
+        # the difference is inf - inf: the operands are equal infinities (IEEE: inf < inf is false, inf == inf is true)
+        return bconst(o in ('<=', '=='))
     c = d.const_value()
     if c is not None:
         return bconst({'<': c < 0, '<=': c <= 0, '==': c == 0, '!=': c != 0}[o])
@@ -439,10 +466,14 @@ class Ctx:
         self.facts = list(facts or [])     # list of B known true
         self.tables = tables or {}         # name -> list of Fractions
         self.int_atoms = set()             # atoms known to be integers
+        self.origin = None                 # function in which the next facts are learned (set by the interpreter)
+        self.origins = {}                  # fact -> function path where it was first assumed
 
     def copy(self):
         c = Ctx(self.ranges, self.facts, self.tables)
         c.int_atoms = set(self.int_atoms)
+        c.origin = self.origin
+        c.origins = dict(self.origins)
         return c
 
     def __deepcopy__(self, memo):
@@ -860,6 +891,8 @@ class Ctx:
         if k[0] == 'not' and k[1].k[0] == 'or':
             return self.assume(bnot(k[1].k[1])) and self.assume(bnot(k[1].k[2]))
         self.facts.append(b)
+        if self.origin is not None:
+            self.origins.setdefault(b, self.origin)
         if k[0] == 'cmp':
             self._refine(k[1], k[2])
         return True
